@@ -171,6 +171,20 @@ def f1_constructs(tier: str) -> Iterator[tuple[str, dict[str, Any]]]:
         yield (f"F1.closed.{cname}.break",
                wrap([("switch", ("h_var", C("$W")), [(("k_val", 1), [op("o")] + inner + [("if", False, [cnd], [("ctrl", "break")], [], None), op("r")]),
                                                      (("k_val", 2), inner + [("ctrl", "break")]), (None, [op("d")])])], fwd, back, "middle"))
+    # a switch inside a loop whose cases end in the loop's control statements (or fall through)
+    LC = [[op("x"), ("ctrl", "continue")], [op("x"), ("ctrl", "break_loop")], [op("x"), ("ctrl", "break")], [("ctrl", "continue")],
+          [("ctrl", "break_loop")], [op("x")]]
+    for i1, c1 in enumerate(LC):
+        for i2, c2 in enumerate(LC):
+            c2 = [(op("y") if s_ == op("x") else s_) for s_ in c2]
+            sw = ("switch", ("h_var", C("$A")), [(("k_val", 1), c1), (("k_val", 2), c2), (None, [op("z"), ("ctrl", "break")])])
+            yield f"F1.swloop.{i1}.{i2}.forever", wrap([("forever", [op("b"), sw, op("c")])], fwd, back, "middle")
+            if (i1 + i2) % 2 == 0:
+                yield f"F1.swloop.{i1}.{i2}.while", wrap([("while", True, cnd, [op("b"), sw, op("c")])], fwd, back, "middle")
+            else:
+                yield (f"F1.swloop.{i1}.{i2}.for",
+                       wrap([("for", ("assign", C("$I"), None, "=", 0, False), ("c_op", C("$I"), "<", 3, False),
+                              ("assign", C("$I"), None, "+=", 1, False), [op("b"), sw, op("c")])], fwd, back, "middle"))
     for neg, eneg, e2neg in itertools.product((False, True), repeat=3):
         for bi in range(nb):
             elifs = [(eneg, [CONDS[4]], B[bi]), (e2neg, [CONDS[8], CONDS[0]], [op("e2")])]
@@ -351,6 +365,16 @@ def f4_tables() -> Iterator[tuple[str, dict[str, Any]]]:
     yield "F4.coro", {"routines": [("coro", "CORO_A", body), ("coro", "CORO_B", "alias"), ("coro", "C3", [op("x")])]}
     yield "F4.legacy", {"routines": [("for", 0, "actor", C("A"), body, True), ("for", 1, "object", C("O"), body, True)]}
     yield "F4.single", {"routines": [("def", 0, [("ctrl", "hold")])]}
+    # jumps into another routine (labels are file-global): forwards, backwards, from inside a block, twice to one label
+    r0 = [op("a0"), ("label", "in0"), op("b0"), ("ctrl", "end")]
+    cnd = ("c_neg", False, "debug")
+    yield "F4.xjump.back", {"routines": [("def", 0, r0), ("for", 1, "actor", 3, [op("c1"), ("jump", "in0")], False)]}
+    yield "F4.xjump.twice", {"routines": [("def", 0, r0), ("for", 1, "actor", 3, [op("c1"), ("if", False, [cnd], [op("d1"), ("jump", "in0")], [], None),
+                                                                                 op("e1"), ("jump", "in0")], False)]}
+    yield "F4.xjump.fwd", {"routines": [("def", 0, [op("a0"), ("if", True, [cnd], [("jump", "in1")], [], None), op("b0"), ("ctrl", "end")]),
+                                        ("def", 1, [op("a1"), ("label", "in1"), op("b1"), ("ctrl", "return")])]}
+    yield "F4.xjump.coro", {"routines": [("coro", "CA", r0), ("coro", "CB", [op("c1"), ("jump", "in0")]),
+                                         ("coro", "CC", [("jump", "in0")])]}
 
 
 def programs(tier: str, seed: int) -> Iterator[tuple[str, dict[str, Any]]]:
@@ -480,8 +504,10 @@ def f5_macros(tier: str, seed: int) -> Iterator[tuple[str, dict[str, Any]]]:
                         body.append(("macrocall", names[i], [3, ("str", "s")][: 1 + (i % 2)]))
                 body += [op("finish"), ("ctrl", "end")]
                 orders = list(itertools.permutations(range(n)))
-                if tier == "quick" and n == 3:
-                    orders = orders[::1]
+                if n == 4:
+                    # 24 orders x 64 edge sets x 2 call orders took > 90 min at the thorough tier: every 4th order, rotated
+                    # with the edge set so that every order occurs for some graphs
+                    orders = orders[mask % 4::4]
                 for oi, order in enumerate(orders):
                     ms = [macros[i] for i in order]
                     count += 1
